@@ -36,8 +36,10 @@ void run(const Case &c, verif_result *out) {
     eo.pairValues = c.geti("pairvalues", 0) != 0;
     eo.bigMult = c.geti("bigmult", 0) != 0;
     size_t n0 = (size_t)c.geti("n0", 0);
-    if (n0 > 12)
-        n0 = 12;
+    size_t cap = c.geti("bign", 0) ? 80 : 12;
+    if (n0 > cap)
+        n0 = cap;
+    eo.maxN = cap;
     Engine<G> e(n0, eo);
     std::string cls = c.get("class") + ":" + c.get("label", "none");
     std::string observer;
@@ -89,14 +91,16 @@ DEF(DL_char, LabeledDirectedGraph<char>) DEF(UL_char, LabeledUndirectedGraph<cha
 DEF(DL_string, LabeledDirectedGraph<std::string>) DEF(UL_string, LabeledUndirectedGraph<std::string>)
 #elif HIST_GROUP == 8
 DEF(DL_struct, LabeledDirectedGraph<Tag>) DEF(UL_struct, LabeledUndirectedGraph<Tag>)
+#elif HIST_GROUP == 9
+DEF(DL_empty, LabeledDirectedGraph<EmptyTag>) DEF(UL_empty, LabeledUndirectedGraph<EmptyTag>)
 #else
-#error "HIST_GROUP must be 0..8"
+#error "HIST_GROUP must be 0..9"
 #endif
 #else
 #define HIST_PARTS(X)                                                                                                  \
     X(DS_none) X(US_none) X(DM_none) X(UM_none) X(DW_none) X(UW_none)                                                  \
     X(DL_int) X(DL_unsigned) X(DL_double) X(DL_char) X(DL_string) X(DL_struct)                                         \
-    X(UL_int) X(UL_unsigned) X(UL_double) X(UL_char) X(UL_string) X(UL_struct)
+    X(UL_int) X(UL_unsigned) X(UL_double) X(UL_char) X(UL_string) X(UL_struct) X(DL_empty) X(UL_empty)
 #define X(n) void hist_run_##n(const Case &c, verif_result *out);
 HIST_PARTS(X)
 #undef X
